@@ -40,16 +40,21 @@ import (
 // ---------------------------------------------------------------- reference database
 
 type d13Col struct {
-	Name string
-	Ty   string // INTEGER | VARCHAR
-	Len  int
+	Name    string
+	Ty      string // INTEGER | VARCHAR
+	Len     int
+	NotNull bool
 }
 
 func (c d13Col) decl() string {
-	if c.Ty == "VARCHAR" {
-		return fmt.Sprintf("%s VARCHAR[%d]", c.Name, c.Len)
+	nn := ""
+	if c.NotNull {
+		nn = " NOT NULL"
 	}
-	return c.Name + " INTEGER"
+	if c.Ty == "VARCHAR" {
+		return fmt.Sprintf("%s VARCHAR[%d]%s", c.Name, c.Len, nn)
+	}
+	return c.Name + " INTEGER" + nn
 }
 
 func (c d13Col) maxLen() int {
@@ -78,14 +83,18 @@ func (v d13Val) lit() string {
 }
 
 type d13Table struct {
-	Name string
-	Cols []d13Col // Cols[0] is the primary key `id INTEGER`
-	Idx  []d13Idx
-	Rows map[int64]map[string]d13Val // id -> column -> value (absent = NULL)
+	Name    string
+	Cols    []d13Col // Cols[0] is the primary key `id INTEGER`
+	Idx     []d13Idx
+	Checks  []d13Check                  // CHECK constraints in force (c13_ddlx.go)
+	Dropped []d13Check                  // CHECK constraints removed by DROP CONSTRAINT: a row violating one of them must be accepted
+	CkStale bool                        // a column under a CHECK was renamed (known defect: the constraint keeps the old name)
+	Rows    map[int64]map[string]d13Val // id -> column -> value (absent = NULL)
 }
 
 func (t *d13Table) clone() *d13Table {
-	n := &d13Table{Name: t.Name, Cols: append([]d13Col{}, t.Cols...), Rows: make(map[int64]map[string]d13Val, len(t.Rows))}
+	n := &d13Table{Name: t.Name, Cols: append([]d13Col{}, t.Cols...), Rows: make(map[int64]map[string]d13Val, len(t.Rows)),
+		Checks: append([]d13Check{}, t.Checks...), Dropped: append([]d13Check{}, t.Dropped...), CkStale: t.CkStale}
 	for _, ix := range t.Idx {
 		n.Idx = append(n.Idx, d13Idx{Cols: append([]string{}, ix.Cols...), Unique: ix.Unique})
 	}
@@ -139,8 +148,20 @@ func (t *d13Table) ids() []int64 {
 // canonical rendering: catalog line + sorted rows
 func (t *d13Table) catalogLine() string {
 	var cs, is []string
-	for _, c := range t.Cols {
-		cs = append(cs, fmt.Sprintf("%s:%s:%d", c.Name, c.Ty, c.maxLen()))
+	for i, c := range t.Cols {
+		// nullable / indexed / unique as COLUMNS() reports them (unique = the column alone is a UNIQUE index; the key column is one)
+		indexed, unique := i == 0, i == 0
+		for _, ix := range t.Idx {
+			for _, ic := range ix.Cols {
+				if ic == c.Name {
+					indexed = true
+					if ix.Unique && len(ix.Cols) == 1 {
+						unique = true
+					}
+				}
+			}
+		}
+		cs = append(cs, fmt.Sprintf("%s:%s:%d:%s", c.Name, c.Ty, c.maxLen(), d13ColFlags(!c.NotNull, false, indexed, i == 0, unique)))
 	}
 	is = append(is, fmt.Sprintf("%s(id):unique:primary", t.Name))
 	var sec []string
@@ -173,12 +194,23 @@ func (t *d13Table) rowLines() []string {
 	return out
 }
 
-type d13DB struct{ T map[string]*d13Table }
+type d13DB struct {
+	loose bool // NOT NULL is not tested (computing what the engine commits under R18, c13_ddlx.go)
+	T     map[string]*d13Table
+	Views map[string]string // view name -> base table (existence is what is compared)
+	Seqs  map[string]bool
+}
 
 func (db *d13DB) clone() *d13DB {
-	n := &d13DB{T: make(map[string]*d13Table, len(db.T))}
+	n := &d13DB{T: make(map[string]*d13Table, len(db.T)), Views: map[string]string{}, Seqs: map[string]bool{}}
 	for k, t := range db.T {
 		n.T[k] = t.clone()
+	}
+	for k, v := range db.Views {
+		n.Views[k] = v
+	}
+	for k := range db.Seqs {
+		n.Seqs[k] = true
 	}
 	return n
 }
@@ -203,9 +235,10 @@ func (db *d13DB) catalogLines() []string {
 // ---------------------------------------------------------------- statements
 
 type d13Stmt struct {
-	K      string // create-table drop-table add-column drop-column rename-column rename-table create-index drop-index insert upsert update delete
+	K      string // create-table drop-table add-column drop-column rename-column rename-table create-index drop-index insert upsert update delete; c13_ddlx.go: drop-constraint set-not-null drop-not-null truncate create-view drop-view create-seq drop-seq
 	T, T2  string
-	Cols   []d13Col // create-table (without id), add-column (one)
+	Cols   []d13Col   // create-table (without id), add-column (one)
+	Checks []d13Check // create-table
 	C, C2  string
 	ICols  []string
 	Unique bool
@@ -228,6 +261,9 @@ func (s *d13Stmt) sql() string {
 		ds := []string{"id INTEGER"}
 		for _, c := range s.Cols {
 			ds = append(ds, c.decl())
+		}
+		for _, ck := range s.Checks {
+			ds = append(ds, ck.decl())
 		}
 		return fmt.Sprintf("CREATE TABLE %s (%s, PRIMARY KEY id)", s.T, strings.Join(ds, ", "))
 	case "drop-table":
@@ -264,11 +300,14 @@ func (s *d13Stmt) sql() string {
 	case "delete":
 		return fmt.Sprintf("DELETE FROM %s WHERE id = %d", s.T, s.ID)
 	}
-	return "?"
+	return s.sqlX()
 }
 
 // reference semantics: error class ("" = ok) and affected rows. Nothing is changed on error.
 func (db *d13DB) apply(s *d13Stmt) (string, int) {
+	if e, n, done := db.applyX(s); done {
+		return e, n
+	}
 	t := db.T[s.T]
 	if s.K != "create-table" && t == nil {
 		return "no-table", 0
@@ -278,7 +317,7 @@ func (db *d13DB) apply(s *d13Stmt) (string, int) {
 		if t != nil {
 			return "table-exists", 0
 		}
-		db.T[s.T] = &d13Table{Name: s.T, Cols: append([]d13Col{{Name: "id", Ty: "INTEGER"}}, s.Cols...), Rows: map[int64]map[string]d13Val{}}
+		db.T[s.T] = &d13Table{Name: s.T, Cols: append([]d13Col{{Name: "id", Ty: "INTEGER"}}, s.Cols...), Rows: map[int64]map[string]d13Val{}, Checks: append([]d13Check{}, s.Checks...)}
 	case "drop-table":
 		delete(db.T, s.T)
 	case "add-column":
@@ -301,6 +340,11 @@ func (db *d13DB) apply(s *d13Stmt) (string, int) {
 				}
 			}
 		}
+		for _, ck := range t.Checks {
+			if ck.Col == s.C {
+				return "column-in-check", 0
+			}
+		}
 		t.Cols = append(t.Cols[:i:i], t.Cols[i+1:]...)
 		for _, r := range t.Rows {
 			delete(r, s.C)
@@ -314,6 +358,12 @@ func (db *d13DB) apply(s *d13Stmt) (string, int) {
 			return "column-exists", 0
 		}
 		t.Cols[i].Name = s.C2
+		for k := range t.Checks {
+			if t.Checks[k].Col == s.C {
+				t.Checks[k].Col = s.C2 // textbook: the constraint follows the column
+				t.CkStale = true       // the engine keeps the old name inside the constraint (known finding)
+			}
+		}
 		for _, ix := range t.Idx {
 			for k := range ix.Cols {
 				if ix.Cols[k] == s.C {
@@ -366,6 +416,9 @@ func (db *d13DB) apply(s *d13Stmt) (string, int) {
 		for i, n := range s.Names {
 			r[n] = s.Vals[i]
 		}
+		if e := t.rowViolates(r, db.loose); e != "" {
+			return e, 0
+		}
 		t.Rows[s.ID] = r
 		return "", 1
 	case "update":
@@ -375,6 +428,14 @@ func (db *d13DB) apply(s *d13Stmt) (string, int) {
 		r, ok := t.Rows[s.ID]
 		if !ok {
 			return "", 0
+		}
+		nr := map[string]d13Val{}
+		for k, v := range r {
+			nr[k] = v
+		}
+		nr[s.C] = s.Vals[0]
+		if e := t.rowViolates(nr, true); e == "check" { // (UPDATE does not test NOT NULL in the engine, R3; the generator never sets NULL)
+			return e, 0
 		}
 		r[s.C] = s.Vals[0]
 		return "", 1
@@ -409,11 +470,16 @@ type d13Sess struct {
 	created    map[string]bool // tables created (or renamed) by this tx
 	renamed    map[string]bool // tables with a column renamed by this tx
 	renamedT   map[string]bool // tables renamed by this tx
+	droppedIx  map[string]bool // tables an index of which this tx dropped (known defect: indexesByColID keeps the index)
 	gone       map[string]bool // "table/id" deleted by this tx
 	idxTaint   bool
 	engUpd     int
 	steps      int
 	reads      int
+	full       []d13Done // every statement the engine executed in this tx, incl. the ones a ROLLBACK TO SAVEPOINT took back in the reference
+	sps        []d13SP   // established savepoints (c13_ddlx.go)
+	k1         bool      // ROLLBACK TO SAVEPOINT after statements: the engine keeps their writes (K1 = R5)
+	k1ddl      bool      // … and DDL was among them
 }
 
 func (s *d13Sess) reset() {
@@ -437,6 +503,13 @@ type d13Case struct {
 	commits  int
 	alt      *d13DB // state the next observation may also show (a failed COMMIT that took effect), reported under altSig
 	altSig   string
+	altWhat  string
+	cold     *sql.Engine       // non-nil while a second, fresh engine over the same store observes (c13_ddlx.go)
+	vTaint   map[string]string // view / sequence name -> known cause under which a divergence on that name is reported
+	vDead    map[string]bool   // names no longer compared (a known divergence was reported)
+	trunc    map[string]bool   // tables emptied by a committed TRUNCATE TABLE
+	quiet    bool
+	probeID  int64
 }
 
 func (c *d13Case) log(s string) { c.script = append(c.script, s) }
@@ -453,19 +526,28 @@ func (c *d13Case) fail(sig, desc string) {
 	c.r.Fail(sig, desc, c.replay(desc))
 }
 
+func (c *d13Case) engine() (*sql.Engine, string) {
+	if c.cold != nil {
+		return c.cold, "-- second engine over the same store: " // not replayable as a session of the first engine: logged as a comment
+	}
+	return c.env.eng, ""
+}
+
 func (c *d13Case) exec(sid int, tx *sql.SQLTx, q string) sqlXRes {
-	res := sqlExec(c.env.eng, tx, sqlPlain(q))
+	eng, pfx := c.engine()
+	res := sqlExec(eng, tx, sqlPlain(q))
 	st := "ok"
 	if res.Err != "" {
 		st = "ERR " + res.Err
 	}
-	c.log(fmt.Sprintf("[s%d] %s   => %s", sid, q, st))
+	c.log(fmt.Sprintf("%s[s%d] %s   => %s", pfx, sid, q, st))
 	return res
 }
 
 func (c *d13Case) query(sid int, tx *sql.SQLTx, q string) sqlQRes {
-	res := sqlQuery(c.env.eng, tx, sqlPlain(q))
-	c.log(fmt.Sprintf("[s%d] %s (Query)   => %s", sid, q, sqlQueryOutcome(res)))
+	eng, pfx := c.engine()
+	res := sqlQuery(eng, tx, sqlPlain(q))
+	c.log(fmt.Sprintf("%s[s%d] %s (Query)   => %s", pfx, sid, q, sqlQueryOutcome(res)))
 	return res
 }
 
@@ -479,6 +561,11 @@ func d13Class(e string) string {
 		for _, pfx := range []string{"other:cannot drop column "} {
 			if strings.HasPrefix(e, pfx) {
 				e = "other:cannot drop column"
+			}
+		}
+		for _, sub := range []string{"constraint not found", "view does not exist", "sequence does not exist", "cannot drop NOT NULL"} {
+			if strings.Contains(e, sub) {
+				e = "other:" + sub
 			}
 		}
 		return strings.ReplaceAll(e, " ", "-")
@@ -563,7 +650,9 @@ func (c *d13Case) observeAs(sid int, tx *sql.SQLTx, expect *d13DB) d13Obs {
 		}
 		var cs, is, sec []string
 		for _, r := range cq.Rows {
-			if len(r) >= 4 {
+			if len(r) >= 9 {
+				cs = append(cs, fmt.Sprintf("%s:%s:%d:%s", r[1].s, r[2].s, r[3].i, d13ColFlags(r[4].b, r[5].b, r[6].b, r[7].b, r[8].b)))
+			} else if len(r) >= 4 {
 				cs = append(cs, fmt.Sprintf("%s:%s:%d", r[1].s, r[2].s, r[3].i))
 			}
 		}
@@ -618,6 +707,21 @@ func (c *d13Case) observeAs(sid int, tx *sql.SQLTx, expect *d13DB) d13Obs {
 // A FRESH session observes the committed state; it must equal the reference.
 // sig/cz: signature and known-cause suffix to use when the ROWS differ.
 func (c *d13Case) observe(where, sig, cz string) bool {
+	if c.quiet {
+		return true // set-up phase of a matrix case: the statements are judged, the state is observed once at its end
+	}
+	ok := c.observe1(where, sig, cz)
+	if ok && !c.dead {
+		// what cannot be listed is probed by behaviour (c13_ddlx.go); sometimes everything again through a second, cold engine
+		c.probes(where, sig)
+		if !c.dead && c.rng.Intn(6) == 0 {
+			c.observeCold(where, sig, cz)
+		}
+	}
+	return ok
+}
+
+func (c *d13Case) observe1(where, sig, cz string) bool {
 	if c.dead {
 		return false
 	}
@@ -625,6 +729,9 @@ func (c *d13Case) observe(where, sig, cz string) bool {
 	mode := c.policy
 	if mode == 2 {
 		mode = c.rng.Intn(3)
+	}
+	if c.cold != nil {
+		mode = 0
 	}
 	const obs = 9
 	var o d13Obs
@@ -676,14 +783,25 @@ func (c *d13Case) observe(where, sig, cz string) bool {
 	if alt := c.alt; alt != nil {
 		c.alt = nil
 		if !c.same(o, c.ref) && c.same(o, alt) {
-			// a COMMIT that reported an error took effect nevertheless
-			c.fail(c.altSig, fmt.Sprintf("%s sees the catalog {%s} and the rows of the transaction: the COMMIT reported an error but the transaction is committed; reference without it: {%s}", ctx, strings.Join(o.catalog, " | "), strings.Join(c.ref.catalogLines(), " | ")))
+			// a COMMIT that reported an error took effect nevertheless / a COMMIT had the effect a known defect gives it
+			c.fail(c.altSig, fmt.Sprintf("%s sees the catalog {%s}: %s; reference: {%s}", ctx, strings.Join(o.catalog, " | "), c.altWhat, strings.Join(c.ref.catalogLines(), " | ")))
 			c.ref = alt
 			c.published(-1, true)
 			return false
 		}
+		if !c.same(o, c.ref) && c.onlyTruncateReordered(o.catalog, alt.catalogLines()) {
+			// … and a table the transaction emptied with TRUNCATE TABLE has its columns in another order (R23): the case ends
+			c.fail("C13:commit:catalog-differs-from-reference:truncate-reorders-columns", fmt.Sprintf("%s sees the catalog {%s}: %s, and the columns of a table emptied by TRUNCATE TABLE changed their order; reference: {%s}", ctx, strings.Join(o.catalog, " | "), c.altWhat, strings.Join(c.ref.catalogLines(), " | ")))
+			c.dead = true
+			return false
+		}
 	}
 	want := c.ref.catalogLines()
+	if strings.Join(o.catalog, "\n") != strings.Join(want, "\n") && c.onlyTruncateReordered(o.catalog, want) {
+		c.fail("C13:commit:catalog-differs-from-reference:truncate-reorders-columns", fmt.Sprintf("%s sees the catalog {%s}; reference {%s}: the columns of a table emptied by TRUNCATE TABLE changed their order", ctx, strings.Join(o.catalog, " | "), strings.Join(want, " | ")))
+		c.dead = true
+		return false
+	}
 	if strings.Join(o.catalog, "\n") != strings.Join(want, "\n") {
 		note := ""
 		if c.ddlNote != "" {
@@ -802,6 +920,7 @@ func (c *d13Case) genCreate() *d13Stmt {
 	for i, n := 0, c.rng.Intn(3); i < n; i++ {
 		st.Cols = append(st.Cols, c.newCol())
 	}
+	c.decorateCreate(st) // NOT NULL columns, CHECK constraints (c13_ddlx.go)
 	return st
 }
 
@@ -819,6 +938,11 @@ func (c *d13Case) genDDL(db *d13DB) *d13Stmt {
 			return &d13Stmt{K: "drop-table", T: "nosuch"}
 		default:
 			return &d13Stmt{K: "add-column", T: t.Name, Cols: []d13Col{{Name: "id", Ty: "INTEGER"}}}
+		}
+	}
+	if rng.Intn(100) < 24 { // DROP CONSTRAINT, ALTER COLUMN, TRUNCATE, views, sequences (c13_ddlx.go)
+		if st := c.genDDLX(db, t); st != nil {
+			return st
 		}
 	}
 	var second []string
@@ -895,10 +1019,22 @@ func (c *d13Case) genDML(db *d13DB, s *d13Sess) *d13Stmt {
 	fresh := func() int64 { c.nextID++; return c.nextID }
 	row := func(st *d13Stmt, id int64, all bool) {
 		for _, col := range t.Cols[1:] {
-			if !all && !t.hasUnique() && rng.Intn(6) == 0 {
+			cks := t.checksOn(col.Name)
+			if col.NotNull || len(cks) > 0 {
+				if col.NotNull && rng.Intn(12) == 0 {
+					c.r.Count("ddl.dml.violates.not-null")
+					continue // must fail: NOT NULL column omitted
+				}
+			} else if !all && !t.hasUnique() && rng.Intn(6) == 0 {
 				continue // NULL by omission
 			}
 			st.Names = append(st.Names, col.Name)
+			if len(cks) > 0 && rng.Intn(5) == 0 {
+				c.nextVal++
+				c.r.Count("ddl.dml.violates.check")
+				st.Vals = append(st.Vals, d13Val{i: cks[rng.Intn(len(cks))].violating(c.nextVal)}) // must fail: CHECK violated
+				continue
+			}
 			st.Vals = append(st.Vals, c.val(col, id))
 		}
 	}
@@ -927,6 +1063,11 @@ func (c *d13Case) genDML(db *d13DB, s *d13Sess) *d13Stmt {
 		col := t.Cols[1+rng.Intn(len(t.Cols)-1)]
 		st.C = col.Name
 		st.Vals = []d13Val{c.val(col, st.ID)}
+		if cks := t.checksOn(col.Name); len(cks) > 0 && rng.Intn(4) == 0 {
+			c.nextVal++
+			c.r.Count("ddl.dml.violates.check")
+			st.Vals = []d13Val{{i: cks[rng.Intn(len(cks))].violating(c.nextVal)}}
+		}
 		return st
 	default:
 		st := &d13Stmt{K: "delete", T: t.Name}
@@ -963,27 +1104,43 @@ func (c *d13Case) autocommit(s *d13Sess, st *d13Stmt) {
 	r.Count("ddl.auto." + st.K)
 	r.OracleChecks++
 	c.lastWhat = fmt.Sprintf("after the autocommit statement of session %d [%s]", s.id, q)
+	kz := c.stmtCause(st, c.ref) // known cause attached to this statement kind / object (c13_ddlx.go), "" otherwise
+	c.taintName(st, false)
 	switch {
 	case res.Err != "" && want == "":
-		c.fail("C13:stmt:spurious-failure:"+d13Class(res.Err), fmt.Sprintf("session %d, autocommit: [%s] is valid on the committed state (reference catalog {%s}) but fails with %s", s.id, q, strings.Join(c.ref.catalogLines(), " | "), res.Err))
+		c.fail(c.stmtSig("C13:stmt:spurious-failure:"+d13Class(res.Err), kz, st), fmt.Sprintf("session %d, autocommit: [%s] is valid on the committed state (reference catalog {%s}) but fails with %s", s.id, q, strings.Join(c.ref.catalogLines(), " | "), res.Err))
+		if kz != "" {
+			c.giveUpOn(st)
+			return
+		}
 		c.observe(c.lastWhat+" (which failed)", "C13:failed-stmt:left-trace", "")
 		c.dead = true
 	case res.Err != "":
 		r.Count("ddl.auto.err." + want)
 		c.observe(c.lastWhat+" (which failed)", "C13:failed-stmt:left-trace", "")
 	case want != "":
-		c.fail("C13:stmt:must-fail-accepted:"+want, fmt.Sprintf("session %d, autocommit: [%s] succeeds although the committed state makes it invalid (%s)", s.id, q, want))
+		c.fail(c.stmtSig("C13:stmt:must-fail-accepted:"+want, kz, st), fmt.Sprintf("session %d, autocommit: [%s] succeeds although the committed state makes it invalid (%s)", s.id, q, want))
+		if kz != "" {
+			c.giveUpOn(st)
+			return
+		}
 		c.dead = true
 	default:
+		if st.K == "set-not-null" || st.K == "drop-not-null" {
+			// known: ALTER COLUMN changes the transaction's in-memory catalog only
+			c.alt, c.altSig, c.altWhat = c.ref, "C13:commit:catalog-differs-from-reference"+d13AlterColLost, "the committed ALTER COLUMN has no effect"
+		}
 		c.ref = tmp
 		if st.isDDL() {
 			c.ddlNote = fmt.Sprintf("[%s] (autocommit, session %d)", q, s.id)
+			c.noteTruncate(st)
 		}
 		c.published(-1, st.isDDL())
 		if !st.isDDL() && res.Updated != wantUpd {
 			c.fail("C13:counts:affected-rows-differ", fmt.Sprintf("session %d, autocommit: [%s] reports %d affected rows, reference %d", s.id, q, res.Updated, wantUpd))
 		}
 		c.observe(c.lastWhat, "C13:commit:state-differs-from-reference", "")
+		c.alt = nil
 	}
 }
 
@@ -998,6 +1155,7 @@ func (c *d13Case) begin(s *d13Sess) {
 	s.tx, s.inTx = res.Tx, true
 	s.view = c.ref.clone()
 	s.touched, s.gone, s.created, s.renamed, s.renamedT = map[string]int{}, map[string]bool{}, map[string]bool{}, map[string]bool{}, map[string]bool{}
+	s.droppedIx = map[string]bool{}
 	s.kind = []string{"empty", "empty", "reader", "reader", "writer", "writer", "writer", "ddl", "ddl", "mixed"}[c.rng.Intn(10)]
 	c.r.Count("ddl.begin." + s.kind)
 }
@@ -1015,6 +1173,15 @@ func (s *d13Sess) ownDDLCause(st *d13Stmt) string {
 	return ""
 }
 
+func (s *d13Sess) deletedFrom(table string) bool {
+	for k := range s.gone {
+		if strings.HasPrefix(k, table+"/") {
+			return true
+		}
+	}
+	return false
+}
+
 func (s *d13Sess) cause() string {
 	if s.idxTaint {
 		return ":secondary-index-view-in-tx"
@@ -1028,6 +1195,7 @@ func (c *d13Case) inTxStmt(s *d13Sess, st *d13Stmt) {
 	q := st.sql()
 	res := c.exec(s.id, s.tx, q)
 	r.Count("ddl.intx." + st.K)
+	c.taintName(st, true)
 	var want string
 	var wantUpd int
 	tmp := s.view.clone()
@@ -1052,17 +1220,29 @@ func (c *d13Case) inTxStmt(s *d13Sess, st *d13Stmt) {
 				cz = ":table-renamed-in-same-tx"
 			case s.created[st.T] && strings.Contains(res.Err, "index not found"):
 				cz = ":table-created-in-same-tx" // its store index is registered by the next transaction's BEGIN
+			case st.K == "create-index" && st.Unique && res.Err == "limited-index-creation" && s.deletedFrom(st.T):
+				cz = ":row-deleted-earlier-in-same-tx" // R4: the emptiness test (one prefix read) still finds a row this transaction deleted
+			case st.K == "drop-column" && s.droppedIx[st.T] && strings.Contains(res.Err, "indexes require it"):
+				cz = ":index-dropped-in-same-tx" // Table.deleteIndex deletes indexesByColID[index.id]: a column map keyed by an index id
+			}
+			if kz := c.stmtCause(st, s.view); kz != "" {
+				cz = kz // a cause attached to the statement kind / the object it names (c13_ddlx.go)
 			}
 			cls := d13Class(res.Err) + cz
 			if strings.Contains(res.Err, "non-transient key to transient") && cz == ":secondary-index-view-in-tx" {
 				cls = "transient-key-clash" // R1, same signature as the single-table runner
 			}
-			c.fail("C13:stmt:spurious-failure:"+cls, fmt.Sprintf("session %d: [%s] is valid on the transaction's view (catalog of BEGIN plus own statements: {%s}) but fails with %s", s.id, q, strings.Join(s.view.catalogLines(), " | "), res.Err))
+			sg := c.stmtSig("C13:stmt:spurious-failure:"+strings.TrimSuffix(cls, cz), cz, st)
+			if cls == "transient-key-clash" {
+				sg = "C13:stmt:spurious-failure:" + cls
+			}
+			c.fail(sg, fmt.Sprintf("session %d: [%s] is valid on the transaction's view (catalog of BEGIN plus own statements: {%s}) but fails with %s", s.id, q, strings.Join(s.view.catalogLines(), " | "), res.Err))
 			if cz == "" {
 				c.dead = true
 			}
 		}
 		// a statement error aborts the whole transaction: nothing of it may be visible
+		c.ending(s, "failed-statement")
 		s.reset()
 		c.lastWhat = fmt.Sprintf("after [%s] failed inside the transaction of session %d and aborted it", q, s.id)
 		c.observe(c.lastWhat, "C13:rollback:left-trace", "")
@@ -1082,7 +1262,10 @@ func (c *d13Case) inTxStmt(s *d13Sess, st *d13Stmt) {
 	case s.viewLost:
 	case want != "" && exact:
 		cz := s.ownDDLCause(st)
-		c.fail("C13:stmt:must-fail-accepted:"+want+cz, fmt.Sprintf("session %d: [%s] succeeds inside the transaction although its view makes it invalid (%s)", s.id, q, want))
+		if kz := c.stmtCause(st, s.view); kz != "" {
+			cz = kz
+		}
+		c.fail(c.stmtSig("C13:stmt:must-fail-accepted:"+want, cz, st), fmt.Sprintf("session %d: [%s] succeeds inside the transaction although its view makes it invalid (%s)", s.id, q, want))
 		s.viewLost = true
 		if cz == "" {
 			c.dead = true
@@ -1096,9 +1279,10 @@ func (c *d13Case) inTxStmt(s *d13Sess, st *d13Stmt) {
 		}
 	}
 	s.prog = append(s.prog, d13Done{st: st, upd: delta})
+	s.full = append(s.full, d13Done{st: st, upd: delta})
 	s.touched[st.T]++
 	switch st.K {
-	case "create-table":
+	case "create-table", "truncate": // TRUNCATE = DROP TABLE + CREATE TABLE: a new table id, whose store index is not registered yet (R14)
 		s.created[st.T] = true
 	case "rename-table":
 		s.renamedT[st.T2] = true
@@ -1110,6 +1294,8 @@ func (c *d13Case) inTxStmt(s *d13Sess, st *d13Stmt) {
 		}
 	case "rename-column":
 		s.renamed[st.T] = true
+	case "drop-index":
+		s.droppedIx[st.T] = true
 	}
 	if st.K == "delete" {
 		s.gone[st.T+"/"+strconv.FormatInt(st.ID, 10)] = true
@@ -1180,6 +1366,49 @@ func (c *d13Case) commit(s *d13Sess) {
 		}
 		progSQL = append(progSQL, d.st.sql())
 	}
+	if res.Err != "" {
+		c.ending(s, "failed-commit")
+	} else {
+		c.ending(s, "commit")
+	}
+	if res.Err != "read-conflict" {
+		for _, d := range s.full {
+			c.noteTruncate(d.st) // (a COMMIT that fails after the store commit has taken effect, R17)
+		}
+	}
+	// what the engine commits under a known defect: every statement it executed, also the ones taken back by ROLLBACK TO SAVEPOINT
+	// (K1 = R5), without the effect of ALTER COLUMN … SET|DROP NOT NULL (in-memory only)
+	c.alt = nil
+	if res.Err == "" {
+		engProg, differs := []d13Done{}, s.k1
+		src := s.prog
+		if s.k1 {
+			src = s.full
+		}
+		for _, d := range src {
+			if d.st.K == "set-not-null" || d.st.K == "drop-not-null" {
+				differs = true
+			}
+			engProg = append(engProg, d)
+		}
+		if differs {
+			alt, okAlt := d13EngineOutcome(c.ref, engProg) // ALTER COLUMN in force while the transaction ran, gone with its COMMIT
+			if okAlt {
+				c.alt, c.altSig, c.altWhat = alt, "C13:commit:catalog-differs-from-reference"+d13AlterColLost, "the committed ALTER COLUMN has no effect"
+				if s.k1 {
+					c.altSig, c.altWhat = "C13:savepoint:rollback-to-keeps-writes", "the statements executed after the savepoint are committed although the transaction rolled back to it"
+				}
+			}
+		}
+	}
+	altCommit := c.alt
+	if res.Err == "" && s.k1 && altCommit == nil {
+		// the engine's outcome under K1 cannot be predicted here: stop the case (K1 itself is reported by c13.go)
+		r.Count("ddl.k1.outcome-not-predictable")
+		s.reset()
+		c.dead = true
+		return
+	}
 	what := "executed no statement"
 	if len(s.prog) > 0 {
 		what = "executed [" + strings.Join(progSQL, "; ") + "]"
@@ -1189,23 +1418,21 @@ func (c *d13Case) commit(s *d13Sess) {
 	if !hasDDL {
 		what += ", no DDL"
 	}
+	if len(s.full) > len(s.prog) {
+		what += fmt.Sprintf(" (and %d statement(s) it took back with ROLLBACK TO SAVEPOINT)", len(s.full)-len(s.prog))
+	}
 	if res.Err != "" {
 		r.Count("ddl.commit.err." + res.Err)
 		r.OracleChecks++
-		if len(s.prog) == 0 {
+		if len(s.full) == 0 {
 			c.fail("C13:commit:empty-commit-fails", fmt.Sprintf("session %d: COMMIT of a transaction that %s fails with %s", s.id, what, res.Err))
 		}
-		if res.Err != "read-conflict" && len(s.prog) > 0 && !s.viewLost {
+		if res.Err != "read-conflict" && len(s.prog) > 0 {
 			// an error raised after the store transaction was committed (on-commit callbacks)?
-			alt := c.ref.clone()
-			okAlt := true
-			for _, d := range s.prog {
-				if e, _ := alt.apply(d.st); e != "" {
-					okAlt = false
-				}
-			}
+			alt, okAlt := d13EngineOutcome(c.ref, s.prog) // ALTER COLUMN has no durable effect (known, R18)
 			if okAlt {
 				c.alt, c.altSig = alt, "C13:failed-commit:left-trace:error-after-store-commit"
+				c.altWhat = "the COMMIT reported an error but the transaction is committed"
 			}
 		}
 		s.reset()
@@ -1216,11 +1443,33 @@ func (c *d13Case) commit(s *d13Sess) {
 	}
 	cz := s.cause()
 	c.lastWhat = fmt.Sprintf("after COMMIT of session %d, which %s", s.id, what)
-	effective := hasDDL
+	// does the store transaction have entries? (ALTER COLUMN … SET|DROP NOT NULL writes nothing, R18)
+	effective, onlyAlter := false, false
 	for _, d := range s.prog {
-		if d.upd > 0 {
+		switch {
+		case d.st.K == "set-not-null" || d.st.K == "drop-not-null":
+			onlyAlter = true
+		case d.st.isDDL() || d.upd > 0:
 			effective = true
 		}
+	}
+	if !effective && onlyAlter {
+		// no entries, no validation: serialised as a reader; the reference keeps the textbook effect of the statements that are valid now
+		tmp := c.ref.clone()
+		for _, d := range s.prog {
+			if d.st.K != "set-not-null" && d.st.K != "drop-not-null" {
+				continue
+			}
+			if e, _ := tmp.apply(d.st); e != "" {
+				c.fail("C13:commit:not-serializable-in-commit-order"+d13AlterColLost, fmt.Sprintf("%s: the engine committed the transaction, but on the state committed before it [%s] is invalid (%s)", c.lastWhat, d.st.sql(), e))
+			}
+		}
+		if !s.k1 {
+			// what the engine commits: nothing
+			altCommit, c.altSig, c.altWhat = c.ref, "C13:commit:catalog-differs-from-reference"+d13AlterColLost, "the committed ALTER COLUMN has no effect"
+		}
+		c.ref = tmp
+		c.published(s.id, true)
 	}
 	if !effective && len(s.prog) > 0 {
 		// nothing was written (UPDATE/DELETE of no row): the transaction is a reader, serializable at its snapshot
@@ -1232,6 +1481,17 @@ func (c *d13Case) commit(s *d13Sess) {
 		for _, d := range s.prog {
 			e, upd := tmp.apply(d.st)
 			r.OracleChecks++
+			if e != "" && d.st.isViewOrSeq() {
+				// known: view / sequence DDL acts on engine-wide state at once, outside the transaction
+				c.fail(d13NameSig(d.st.T)+c.vTaint[d.st.T], fmt.Sprintf("%s: on the state committed before the transaction [%s] is invalid (%s)", c.lastWhat, d.st.sql(), e))
+				c.giveUpOn(d.st)
+				continue
+			}
+			if e != "" && (d.st.K == "set-not-null" || d.st.K == "drop-not-null") {
+				// known: ALTER COLUMN writes nothing, so the transaction is not validated against concurrent commits and the statement has no durable effect
+				c.fail("C13:commit:not-serializable-in-commit-order"+d13AlterColLost, fmt.Sprintf("%s: the engine committed the transaction, but on the state committed before it [%s] is invalid (%s)", c.lastWhat, d.st.sql(), e))
+				continue
+			}
 			if e != "" {
 				kz := s.ownDDLCause(d.st)
 				if d.st.K == "create-index" && d.st.Unique && e == "limited-index-creation" {
@@ -1254,14 +1514,29 @@ func (c *d13Case) commit(s *d13Sess) {
 		c.ref = tmp
 		if hasDDL {
 			c.ddlNote = fmt.Sprintf("[%s] (transaction of session %d)", strings.Join(progSQL, "; "), s.id)
+			for _, d := range s.full {
+				c.noteTruncate(d.st)
+			}
 		}
 		c.published(s.id, hasDDL)
 		if res.Updated != s.engUpd {
 			c.fail("C13:counts:affected-rows-differ"+cz, fmt.Sprintf("session %d: the committed transaction reports %d affected rows, the statements reported %d in total", s.id, res.Updated, s.engUpd))
 		}
 	}
+	k1ddl := s.k1 && s.k1ddl
 	s.reset()
+	if k1ddl && altCommit != nil {
+		// K1 with DDL: the statements taken back are persisted, but RollbackToSavepoint restored mutatedCatalog and the COMMIT did not
+		// invalidate the catalog cache: the engine's own sessions see a mixture (old catalog, new rows) until the next DDL commit
+		// (and what was taken back may be invisible in the listed catalog — a dropped constraint): reported if visible, then the case ends
+		c.k1Latent(altCommit)
+		c.r.Count("ddl.k1.case-ends-after-commit-with-ddl-taken-back")
+		c.dead = true
+		return
+	}
+	c.alt = altCommit
 	c.observe(c.lastWhat, "C13:commit:state-differs-from-reference", cz)
+	c.alt = nil
 }
 
 func (c *d13Case) closeAll(why string) {
@@ -1271,6 +1546,7 @@ func (c *d13Case) closeAll(why string) {
 				s.tx.Cancel()
 			}
 			c.log(fmt.Sprintf("[s%d] -- session closed (tx.Cancel) %s", s.id, why))
+			c.ending(s, "session-closed")
 			s.reset()
 		}
 	}
@@ -1285,6 +1561,7 @@ func (c *d13Case) reopen() {
 		return
 	}
 	c.r.Count("ddl.reopen")
+	c.reopenedNames()
 	c.lastWhat = "after the engine was closed and opened again"
 	c.observe(c.lastWhat, "C13:restart:state-differs-from-reference", "")
 }
@@ -1331,6 +1608,10 @@ func (c *d13Case) step(s *d13Sess) {
 		}
 		return
 	}
+	if !s.viewLost && rng.Intn(9) == 0 {
+		c.savepointStep(s) // SAVEPOINT / ROLLBACK TO SAVEPOINT / RELEASE around the statements of this transaction (c13_ddlx.go)
+		return
+	}
 	switch {
 	case k < 40:
 		var st *d13Stmt
@@ -1356,6 +1637,7 @@ func (c *d13Case) step(s *d13Sess) {
 		}
 		c.log(fmt.Sprintf("[s%d] -- session closed (tx.Cancel)", s.id))
 		c.r.Count("ddl.session-closed")
+		c.ending(s, "session-closed")
 		s.reset()
 		c.lastWhat = fmt.Sprintf("after session %d was closed with an open transaction", s.id)
 		c.observe(c.lastWhat, "C13:rollback:left-trace", "")
@@ -1365,6 +1647,7 @@ func (c *d13Case) step(s *d13Sess) {
 func (c *d13Case) rollback(s *d13Sess) {
 	res := c.exec(s.id, s.tx, "ROLLBACK")
 	c.r.Count("ddl.rollback")
+	c.ending(s, "rollback")
 	if res.Err != "" {
 		c.fail("C13:rollback:fails", fmt.Sprintf("session %d: ROLLBACK fails with %s", s.id, res.Err))
 	}
@@ -1386,7 +1669,8 @@ func (c *d13Case) run(thorough bool) {
 		c.closeAll("at the end of the case")
 		env.close()
 	}()
-	c.ref = &d13DB{T: map[string]*d13Table{}}
+	c.ref = &d13DB{T: map[string]*d13Table{}, Views: map[string]string{}, Seqs: map[string]bool{}}
+	c.vTaint, c.vDead = map[string]string{}, map[string]bool{}
 	c.policy = []int{0, 0, 0, 1, 2, 2}[rng.Intn(6)]
 	nSess := 2 + rng.Intn(3)
 	for i := 0; i < nSess; i++ {
@@ -1435,12 +1719,16 @@ func runC13DDL(r *hx.Result, rng *hx.Rng, thorough bool) error {
 	if thorough {
 		cases = 300
 	}
+	runC13DDLMatrix(r, rng.Fork(), thorough) // every DDL kind × every ending × cache state (c13_ddlx.go)
 	for i := 0; i < cases; i++ {
 		c := &d13Case{r: r, rng: rng.Fork()}
 		c.run(thorough)
 	}
 	for _, k := range []string{"ddl.begin.empty", "ddl.begin.reader", "ddl.begin.writer", "ddl.begin.ddl", "ddl.commit.empty", "ddl.commit.reader", "ddl.reopen", "ddl.rollback",
-		"ddl.auto.create-table", "ddl.auto.add-column", "ddl.auto.create-index", "ddl.auto.drop-table", "ddl.intx.read", "ddl.observe.mode0", "ddl.observe.mode1", "ddl.observe.mode2"} {
+		"ddl.auto.create-table", "ddl.auto.add-column", "ddl.auto.create-index", "ddl.auto.drop-table", "ddl.intx.read", "ddl.observe.mode0", "ddl.observe.mode1", "ddl.observe.mode2",
+		"ddl.intx.drop-constraint", "ddl.ending.rollback.with.drop-constraint", "ddl.ending.commit.with.drop-constraint", "ddl.ending.session-closed.with.drop-constraint",
+		"ddl.ending.failed-statement.with.drop-constraint", "ddl.ending.rollback.with.set-not-null", "ddl.ending.rollback.with.create-view", "ddl.ending.rollback.with.create-seq",
+		"ddl.probe.check", "ddl.probe.not-null", "ddl.probe.dropped-check", "ddl.probe.check.while-uncommitted-ddl-open", "ddl.observe.cold", "ddl.dml.violates.check"} {
 		if r.Distribution[k] == 0 {
 			r.Inconclusive = append(r.Inconclusive, "generator never produced class "+k)
 		}
